@@ -31,7 +31,11 @@ universal theorems (`Props/C05.lean`: `conservation_except_K1`, `accounting_exce
   straggler of K-C05-K1 on the exporter's histogram; `conc_K1_witness_has_K1_step`: that schedule has exactly one K1 step.
 * `conc_render_can_miss_completed_record` — without any K1 step: a drain pass whose detach CAS fails (a block hand-over
   between its tail load and its CAS) folds nothing, so the render it belongs to misses samples recorded before it began;
-  they stay pending (nothing lost).
+  they stay pending (nothing lost).  Known finding K-C07-K2, replayed on the real exporter (yield point `bkt.clear.cas`).
+* `conc_render_shows_completed_partial` / `conc_render_count_ge_completed_partial` — the clause "a render shows everything
+  recorded before it began": every schedule without a K1 step in which the render's drain pass detached the chain (or
+  found the bucket empty: the tail was null at some moment after the record() calls in question had returned) — i.e. NO
+  failed detach — and the render reads the distributions while no drain is inside `clear_with`;
 * `grants_are_steps` — the schedules the correspondence stream replays (scheduler grants) are schedules of the step machine.
 -/
 import MetricsVerif.Proofs.PromConc
@@ -216,9 +220,11 @@ theorem conc_K1_witness_has_K1_step :
     two, the compare-exchange fails and `clear_with` returns having drained NOTHING.  Witness (block size 1): record(1) has
     returned before the drain pass even starts; record(2) finds the block full; the drain pass loads the tail; record(2)
     installs the new block; the drain's CAS fails.  The pass folds nothing — a `render()` taken there shows `_count` 0
-    although a record() had returned before it began — and both samples stay pending for the next pass.  (In the real
-    bucket the load and the CAS are adjacent, there is no yield point between them, so the scheduled runs of the harness
-    cannot place the hand-over there; the theorems above hold for these schedules too: nothing is lost or duplicated.) -/
+    although a record() had returned before it began — and both samples stay pending for the next pass.  Known finding
+    K-C07-K2: replayed on the real `PrometheusRecorder` with block size 64 (harness/src/c07.rs, concurrent cases i = 19, 20,
+    21, and whenever a random schedule gets there: the verification hook `bkt.clear.cas` is a yield point between the tail
+    load and the CAS).  The theorems above hold for these schedules too: nothing is lost or duplicated
+    (`C05.failed_detach_delivers_nothing_and_loses_nothing`: the failed CAS leaves the bucket untouched). -/
 theorem conc_render_can_miss_completed_record :
     let progs := progsOf [[1], [2]] [1]
     let pre := [0, 0, 0, 0, 0]
@@ -231,12 +237,73 @@ theorem conc_render_can_miss_completed_record :
     ∧ distOf (run (Bucket.init 1 progs) (pre ++ rest)) = { count := 0, sum := 0 }
     ∧ pendingOf (run (Bucket.init 1 progs) (pre ++ rest)) = { count := 2, sum := 3 } := by decide
 
+/-! ### a render shows what was recorded before it began (outside K1 and outside a failed detach) -/
+
+/-- **a render shows every sample recorded before it began — outside K1 and outside a failed detach.**  Any recording
+    threads, any draining threads, any block size, EVERY schedule `pre ++ m1 ++ m2` without a K1 step such that
+    * after `pre ++ m1` the bucket's tail is null — a drain pass that began after `pre` has detached the chain (a
+      successful detach CAS sets the tail to null: `conc_detach_nulls_tail`) or found the bucket empty; this is exactly
+      what a FAILED detach does not achieve (`C05.detach_cas_all_or_nothing`: it leaves the tail as it is), and
+    * after `pre ++ m1 ++ m2` no thread is inside a `clear_with` walk (the moment a `render()` reads the distributions:
+      it holds the read lock, every drain pass holds the write lock from before its `clear_with` to after it):
+    every sample whose record() had returned when `pre` ended (published slot; `C05.completed_pushes_are_published`) has
+    been folded into the distribution — value by value, at least as often as it had been recorded by then.  So the
+    render shows it (`distOf` is what `_count` / `_sum` show), and by `conc_never_counted_twice` not more than once. -/
+theorem conc_render_shows_completed_partial (B : Nat) (recs : List (List Nat)) (drains : List Nat) (pre m1 m2 : List Nat)
+    (hk : C05.stragglerClaims B (progsOf recs drains) (pre ++ m1 ++ m2) = 0)
+    (hnull : (run (Bucket.init B (progsOf recs drains)) (pre ++ m1)).tail = none)
+    (hidle : ∀ (i : Nat) (t : Thread),
+      (run (Bucket.init B (progsOf recs drains)) (pre ++ m1 ++ m2)).threads[i]? = some t → claim t.pc = none)
+    (v : Nat) :
+    pubCount v (run (Bucket.init B (progsOf recs drains)) pre)
+      ≤ (delivered (run (Bucket.init B (progsOf recs drains)) (pre ++ m1 ++ m2))).count v :=
+  C05.delivered_once_tail_was_null B (progsOf recs drains) pre m1 m2 hk hnull hidle v
+
+/-- the successful detach CAS of a drain pass is a moment at which the tail is null (first hypothesis of
+    `conc_render_shows_completed_partial` with `m1 := m1' ++ [d]`) -/
+theorem conc_detach_nulls_tail (s : Sys) (d : Nat) (t : Thread) (old : Nat)
+    (ht : s.threads[d]? = some t) (hpc : t.pc = .cCas old) (hok : s.tail = some old) : (step s d).tail = none := by
+  rcases C05.detach_cas_all_or_nothing s d t old ht hpc with h | h
+  · exact h.2.1
+  · exact absurd hok h.1
+
+/-- the (count, sum) form: under the same hypotheses `_count` shown by the render is at least the number of record()
+    calls that had returned before the drain began, and `_sum` at least their sum -/
+theorem conc_render_count_ge_completed_partial (B : Nat) (recs : List (List Nat)) (drains : List Nat)
+    (pre m1 m2 : List Nat)
+    (hk : C05.stragglerClaims B (progsOf recs drains) (pre ++ m1 ++ m2) = 0)
+    (hnull : (run (Bucket.init B (progsOf recs drains)) (pre ++ m1)).tail = none)
+    (hidle : ∀ (i : Nat) (t : Thread),
+      (run (Bucket.init B (progsOf recs drains)) (pre ++ m1 ++ m2)).threads[i]? = some t → claim t.pc = none)
+    (done : List Nat)
+    (hdone : ∀ v, done.count v ≤ pubCount v (run (Bucket.init B (progsOf recs drains)) pre)) :
+    done.length ≤ (distOf (run (Bucket.init B (progsOf recs drains)) (pre ++ m1 ++ m2))).count
+    ∧ done.sum ≤ (distOf (run (Bucket.init B (progsOf recs drains)) (pre ++ m1 ++ m2))).sum := by
+  have h := length_le_of_count_le done (delivered (run (Bucket.init B (progsOf recs drains)) (pre ++ m1 ++ m2)))
+    (fun v => Nat.le_trans (hdone v) (conc_render_shows_completed_partial B recs drains pre m1 m2 hk hnull hidle v))
+  simpa [distOf, Dist.record, Dist.zero] using h
+
+/-- non-vacuity (block size 2): all four record() calls have returned when the drain pass of thread 2 begins; record(4)
+    of thread 1 handed the tail over BEFORE the drain's tail load, so the detach succeeds (tail null after `m1`); after
+    the pass the distribution holds all four samples -/
+example :
+    let recs := [[1, 2, 3], [4]]
+    let progs := progsOf recs [1]
+    let pre := [0,0,0,0,0, 0,0,0, 1,1,1,1,1,1, 0,0,0]
+    let m1 := [2, 2, 2]
+    let m2 := [2, 2, 2, 2, 2, 2, 2]
+    C05.stragglerClaims 2 progs (pre ++ m1 ++ m2) = 0
+    ∧ (run (Bucket.init 2 progs) (pre ++ m1)).tail = none
+    ∧ ((run (Bucket.init 2 progs) (pre ++ m1 ++ m2)).threads.map (fun t => (claim t.pc).isSome)) = [false, false, false]
+    ∧ completedPushes (run (Bucket.init 2 progs) pre) = 4
+    ∧ distOf (run (Bucket.init 2 progs) (pre ++ m1 ++ m2)) = { count := 4, sum := 10 } := by decide
+
 /-! ### the runs the correspondence stream replays -/
 
-/-- a schedule of scheduler grants (the CAS of `clear_with` shares the grant of its tail load: there is no yield point
-    between them in bucket.rs) is the schedule `fineSched` of single steps: what the driver's `promconc run` evaluates is a
-    `run` of the step machine, so every theorem above applies to it -/
-theorem grants_are_steps (s : Sys) (sched : List Nat) : sched.foldl grant s = run s (fineSched s sched) :=
+/-- a schedule of scheduler grants is that very schedule of single steps (one grant = one model step: the detaching CAS
+    of `clear_with` has its own yield point `bkt.clear.cas` in bucket.rs, between the tail load and the CAS): what the
+    driver's `promconc run` evaluates is a `run` of the step machine, so every theorem above applies to it -/
+theorem grants_are_steps (s : Sys) (sched : List Nat) : sched.foldl grant s = run s sched :=
   foldl_grant_eq_run sched s
 
 /-- SOURCE FACT (regenerated on every run): the drain loop visits EVERY registered histogram in EVERY pass — its body has
